@@ -251,6 +251,9 @@ func c30Coin(c *Ctx) {
 		if !ok || fObj == nil || info.Uses[id] != fObj {
 			continue
 		}
+		if fwc := c.Fn("C30.3", "prng", "FlipWeightedCoin"); fwc != nil {
+			rr = inlineLocal(fwc, rr) // threshold := 1.0 - weight
+		}
 		sub, ok := an.Unparen(rr).(*ast.BinaryExpr)
 		if ok && sub.Op == token.SUB && isOne(sub.X) && isW(sub.Y) {
 			okRet = true
